@@ -14,10 +14,11 @@ Per process fault plan (symbolic ints decided with V.sym_eq): crash_at (the
 operation with that index and everything after it never happens) and fail_at
 (that operation raises OSError(errno) instead of being executed).
 """
+import copy as _copy
 import errno as _errno
 
 from lib import V
-from lib.symfs import FakeFile, FakeOS, SymFS
+from lib.symfs import FakeFile, FakeOS, SymFS, WouldBlock
 
 
 class Pause(BaseException):
@@ -65,6 +66,22 @@ class ReplayFile:
     def close(self):
         return self._call('close')
 
+    def flock(self, exclusive):
+        return self._call('flock', exclusive)
+
+    def funlock(self):
+        return self._call('funlock')
+
+    def json_dump(self, obj):
+        return self._call('json_dump', obj)
+
+    def json_load(self):
+        return self._call('json_load')
+
+    @property
+    def node(self):
+        return self._real.node
+
     @property
     def closed(self):
         return self._real.closed
@@ -94,11 +111,13 @@ class ProcFS:
         self.tmp_counter = 0
         self.trace = []
         self.aborting = None       # Pause/Dead in flight: unwinding code (finally/__exit__) must not act
+        self.blocked_on = None     # (FakeFile, exclusive) of a blocking lock request that cannot be served
 
     def begin(self):
         self.idx = 0
         self.tmp_counter = 0
         self.aborting = None
+        self.blocked_on = None
 
     def is_private(self, path):
         return isinstance(path, str) and self.private(path)
@@ -108,9 +127,13 @@ class ProcFS:
             raise self.aborting()      # the process is being suspended/killed: nothing happens any more
         i = self.idx
         self.idx += 1
+        if i > len(self.log):
+            raise V.HarnessGap('replay log out of step')
         if i < len(self.log):
             kind, val = self.log[i]
             if kind == 'ret':
+                if type(val) in (dict, list, set, bytearray):
+                    return _copy.deepcopy(val)     # the code may mutate what it was given
                 return val
             if kind == 'exc':
                 raise val
@@ -133,12 +156,19 @@ class ProcFS:
                 self.granted = False
             raise e
         try:
-            r = thunk()
+            try:
+                r = thunk()
+            except WouldBlock:
+                # blocking lock: the process sleeps; nothing happened
+                self.idx -= 1
+                self.aborting = Pause
+                self.blocked_on = name
+                raise Pause()
             if isinstance(r, FakeFile):
                 r = ReplayFile(self, r)
-            self.log.append(('ret', r))
+            self.log.append(('ret', _copy.deepcopy(r) if type(r) in (dict, list, set, bytearray) else r))
             self.trace.append((name, path, 'ok'))
-        except OSError as e:
+        except Exception as e:
             self.log.append(('exc', e))
             self.trace.append((name, path, type(e).__name__))
             raise
@@ -148,11 +178,18 @@ class ProcFS:
         return r
 
     # the SymFS API, every call an operation --------------------------------
+    def mktemp_name(self, dir, prefix='tmp', suffix=''):
+        self.tmp_counter += 1
+        return (dir or '.') + '/%s%s-%04d%s' % (prefix, self.pname, self.tmp_counter, suffix)
+
+    def env_op(self, name, thunk, path=None):
+        return self._op('env.' + name, (), thunk, path)
+
     def __getattr__(self, name):
         if name.startswith('_') and name not in ('_resolve',):
             raise AttributeError(name)
         target = getattr(self.shared, name)
-        if not callable(target):
+        if not callable(target) or name in ('norm', '_resolve'):
             return target
 
         def call(*a, **kw):
@@ -215,27 +252,43 @@ class Proc:
         self._run()
 
 
+def _runnable(procs):
+    return [p for p in procs if not p.finished]
+
+
 def run_schedule(procs, sched, invariant):
     """symbolic prefix `sched`, then round-robin completion; `invariant()` is evaluated
-    after every step and must return None or a violation string"""
+    after every step and must return None or a violation string.  A process waiting for
+    a lock is re-tried when chosen (a no-op if the lock is still held)."""
     for p in procs:
         p.start()
     v = invariant()
     if v:
         return v
     for c in sched:
-        runnable = [p for p in procs if not p.finished]
+        runnable = _runnable(procs)
         if not runnable:
             break
         runnable[V.sym_pick(c, len(runnable))].advance()
         v = invariant()
         if v:
             return v
-    for _ in range(400):
-        runnable = [p for p in procs if not p.finished]
+    idle = 0
+    rr = 0
+    for _ in range(600):
+        runnable = _runnable(procs)
         if not runnable:
             return None
-        runnable[0].advance()
+        p = runnable[rr % len(runnable)]
+        rr += 1
+        before = len(p.view.log)
+        p.advance()
+        if not p.finished and len(p.view.log) == before and p.view.blocked_on:
+            idle += 1
+            if idle > 2 * len(procs):
+                return 'deadlock: all unfinished processes wait for locks'
+        else:
+            idle = 0
         v = invariant()
         if v:
             return v
